@@ -755,7 +755,7 @@ class FetchAtt:
             #
             subtype = (msg.get_content_subtype().upper()).encode("latin-1")
             if not self.ext_data:
-                res = b"(" + b"".join(sub_parts) + b'"' + subtype + b'")'
+                res = b"(" + b"".join(sub_parts) + b' "' + subtype + b'")'
                 return res
 
             # Get the extension data and add it to our response.
